@@ -10,6 +10,7 @@ import itertools
 from fractions import Fraction as F
 
 import core
+from fns import big_shift_copies
 from adapters import Adapter
 from core import clist, obs_list, q, z
 from fns import G, frs, series_cases, unfr
@@ -157,6 +158,7 @@ def gen_roc(tier, rng):
         ts = axis(rng.choice([0, 1700000000 * NS]), [rng.choice([1, 2, 60]) for _ in range(n - 1)]) if n else []
         for thr in (F(-1), -G):
             add(xs, ts, thr)
+    cases += big_shift_copies(cases, "xs", rng, 150 if tier == "quick" else 1500, lambda c: len(c["xs"]) == len(c["ts_ns"]))
     return cases
 
 
